@@ -252,7 +252,7 @@ func richCircuit(t *rt.Tape) *circuit.Circuit {
 		}
 		return gen.Circuit(t, gen.CircuitOpts{MaxIn: 8, MaxGates: 10, MaxOutW: 2, FixedOuts: n})
 	}
-	c := gen.Circuit(t, gen.CircuitOpts{MaxGates: 120, MaxIn: 40})
+	c := gen.Circuit(t, gen.CircuitOpts{MaxGates: 120, MaxIn: 40, INVHeavy: t.Choose(rt.SGen, 4) == 0})
 	bigHeader := t.Choose(rt.SGen, 6) == 0
 	if bigHeader {
 		// a wide input so that a struct of one-bit members with long names
@@ -694,7 +694,7 @@ func (w *world) roundTrip(t *rt.Tape, res *core.Result, smp *sample) *core.Failu
 	smp.Reader = []string{"whole", "1 byte", "random", fmt.Sprintf("at most %d", k)}[rmode]
 	// one round trip in six goes through the file route of the library: a file named by the
 	// format's extension, circuit.Parse(path)
-	if t.Choose(rt.SGen, 6) == 0 {
+	if t.Choose(rt.SGen, 4) == 0 {
 		rmode = rmodeFile
 		smp.Reader = "a file on disk, parsed with circuit.Parse(path)"
 		res.Reach["roundtrip.file-route"]++
